@@ -1,6 +1,7 @@
 package mon
 
 import (
+	"bytes"
 	"fmt"
 	"sort"
 	"strings"
@@ -12,6 +13,7 @@ import (
 	"github.com/z7zmey/php-parser/pkg/ast"
 	"github.com/z7zmey/php-parser/pkg/visitor"
 	"github.com/z7zmey/php-parser/pkg/visitor/nsresolver"
+	"github.com/z7zmey/php-parser/pkg/visitor/printer"
 	"github.com/z7zmey/php-parser/pkg/visitor/traverser"
 )
 
@@ -24,7 +26,7 @@ import (
 // equal the output the same operation produces on a freshly parsed tree.
 // thorough tier: two goroutines run histories on the same tree under the race detector.
 
-var c13Ops = []string{"print", "dump", "dump+tokens", "dump+positions", "dump+tokens+positions", "traverse(null)", "traverse(recording)", "resolve", "accept(null)"}
+var c13Ops = []string{"print", "print(php-state)", "print(subtree)", "dump", "dump+tokens", "dump+positions", "dump+tokens+positions", "traverse(null)", "traverse(recording)", "resolve", "accept(null)"}
 
 // resolvedNames renders the resolver's map independent of node addresses.
 func resolvedNames(root ast.Vertex) (string, *obs.Panic) {
@@ -51,6 +53,20 @@ func c13Run(op string, root ast.Vertex, src []byte) (string, *obs.Panic) {
 	case "print":
 		pv, p := printTree(root, src)
 		return pv.Buf.String(), p
+	case "print(php-state)":
+		// the printer's other configuration: it starts in PHP state (no open tag is supplied)
+		var buf bytes.Buffer
+		p := obs.Try(func() { root.Accept(printer.NewPrinter(&buf).WithState(printer.PrinterStatePHP)) })
+		return buf.String(), p
+	case "print(subtree)":
+		// printing a part of the tree (its first statement) must not touch the tree either
+		var buf bytes.Buffer
+		p := obs.Try(func() {
+			if kids := obs.Children(root); len(kids) > 0 {
+				kids[0].Accept(printer.NewPrinter(&buf).WithState(printer.PrinterStatePHP))
+			}
+		})
+		return buf.String(), p
 	case "dump":
 		return dumpTree(root, dumpOpts{false, false})
 	case "dump+tokens":
@@ -194,7 +210,7 @@ func c13Where(a, b string) string {
 func init() {
 	core.Register(&core.Check{
 		ID:   "C13",
-		Rule: "cases = known-finding witnesses ++ trees parsed from the shared workload (corpus, hostile inputs incl. trees with errors, generated programs of both families with namespaces/imports, block-crossing concatenations); per tree one PRNG history of 4..16 operations over {print, dump x 4 option sets, traverse(null), traverse(recording), resolve names, Accept(null)}; after every operation: pointer-level fingerprint + guarded source unchanged, output equal to the fresh-tree output; a race-detector twin (C13R, built with -race) runs two histories concurrently on one tree for 1500 (quick) / 60000 (thorough) trees; non-trivial = tree with >= 3 nodes; distinct by (input, version, history)",
+		Rule: "cases = known-finding witnesses ++ trees parsed from the shared workload (corpus, hostile inputs incl. trees with errors, generated programs of both families with namespaces/imports, block-crossing concatenations); per tree one PRNG history of 4..16 operations over {print, print in PHP state, print of a subtree, dump x 4 option sets, traverse(null), traverse(recording), resolve names, Accept(null)}; after every operation: pointer-level fingerprint + guarded source unchanged, output equal to the fresh-tree output; a race-detector twin (C13R, built with -race) runs two histories concurrently on one tree for 1500 (quick) / 60000 (thorough) trees; non-trivial = tree with >= 3 nodes; distinct by (input, version, history)",
 		Assumptions: []string{
 			"the pointer-level fingerprint covers every exported field reachable by reflection, including node/token/position addresses, slice lengths, capacities and data pointers, and the bytes of every value",
 			"resolver output is compared as the sorted list kind@span=name (node addresses differ between two parses)",
